@@ -515,12 +515,25 @@ fn build_debug_for_struct(
     // The last field of a struct may be unsized (`T: ?Sized`, `str`, `[T]`, `dyn Trait`, an alias of one
     // of them): `&self.x` cannot be coerced to `&dyn Debug` then, `&&self.x` can. Whether it is cannot
     // be told from its tokens, so the last field is always passed that way, as in the standard derive.
+    // It goes through a function of its own: there `&T: Debug` follows from `T: Debug` alone, while inside
+    // the impl a bound on another field type (`&'a T: Debug`) would be taken for it and pin the lifetime.
     let to_expr = |field: &FieldEntry| {
         let member = field.member();
         if field.index + 1 == fields.len() {
-            quote!(&&self.#member)
+            quote!(__last(&&self.#member))
         } else {
             quote!(&self.#member)
+        }
+    };
+    let last_fn = if fields.is_empty() {
+        quote!()
+    } else {
+        quote! {
+            fn __last<'__a, __T: ?::core::marker::Sized + ::core::fmt::Debug>(
+                __t: &'__a &'__a __T,
+            ) -> &'__a dyn ::core::fmt::Debug {
+                __t
+            }
         }
     };
     let expr = build_debug_expr(
@@ -536,6 +549,7 @@ fn build_debug_for_struct(
         #[automatically_derived]
         impl #impl_g #trait_ for #this_ty #wheres {
             fn fmt(&self, __f: &mut ::core::fmt::Formatter) -> ::core::fmt::Result {
+                #last_fn
                 #expr
             }
         }
